@@ -300,8 +300,10 @@ func (h *cliHandler) HandleTx(ctx context.Context, tx *Tx) {
 func (h *cliHandler) HandleTxUpdate(ctx context.Context, u *TxUpdate) {
 	h.add(cliEvent{kind: "update", id: u.ID, txid: u.TxID})
 }
-func (h *cliHandler) HandleHeaders(ctx context.Context, hs *Headers) { h.add(cliEvent{kind: "headers"}) }
-func (h *cliHandler) HandleInSync(ctx context.Context)              { h.add(cliEvent{kind: "insync"}) }
+func (h *cliHandler) HandleHeaders(ctx context.Context, hs *Headers) {
+	h.add(cliEvent{kind: "headers"})
+}
+func (h *cliHandler) HandleInSync(ctx context.Context) { h.add(cliEvent{kind: "insync"}) }
 func (h *cliHandler) HandleMessage(ctx context.Context, p MessagePayload) {
 	if _, ok := p.(*AcceptRegister); ok {
 		h.add(cliEvent{kind: "accept"})
